@@ -289,8 +289,84 @@ def case_reinclude(tag, first_ok=False):
     p, o = "%s/m.c" % d.lstrip("/"), "%s/m" % d
     fn = "fa" if first_ok else "fb"
     exp = "expect kind=%s file=%s lines=%d-%d program=%s object=%s trace=go@%s@%s@%s@%d-%d|%s@%s@%s@%s@%d-%d" % (
-        "plain" if first_ok else "reinclude", t.name, tl, tl, p, o, p, o, p, gl, gl, fn, p, o, t.name, tl, tl)
+        "plain", t.name, tl, tl, p, o, p, o, p, gl, gl, fn, p, o, t.name, tl, tl)
     return [m.cmd(), t.cmd(), "load o1 %s/m" % d, "apply o1 go", "dump o1", exp]
+
+
+def case_multi_include(tag, variant, rng=None):
+    """headers included more than once: `again` = three copies of one header selected by a macro, `self` = a header
+    that includes itself once (guarded), `back` = a.h includes b.h which includes a.h again (guarded); the failing
+    statement sits behind the inner inclusion, so its line must not be shifted by the copies read before"""
+    d = "/c18/%s" % tag
+    p, o = "%s/m.c" % d.lstrip("/"), "%s/m" % d
+    m = Src("%s/m.c" % d)
+    m.text("int x_;\nvoid set_oid(string s) {}\n")
+    files = [m]
+    pad = (lambda src: src.pad("n", rng.range(0, 40))) if rng else (lambda src: None)
+    if variant == "again":
+        t = Src("%s/t.h" % d)
+        t.text("// t\n")
+        pad(t)
+        t.text("int FN(int k) {\n")
+        tl = t.line
+        t.text("  x_ = 10 / k;\n  return x_;\n}\n")
+        pad(t)
+        which = rng.range(0, 2) if rng else 2
+        for i, fn in enumerate(("fa", "fb", "fc")):
+            pad(m)
+            m.text('#define FN %s\n#include "t.h"\n#undef FN\n' % fn)
+        gl = m.line
+        args = ["1", "1", "1"]
+        args[which] = "0"
+        m.text("int go() { return fa(%s) + fb(%s) + fc(%s); }\n" % tuple(args))
+        fn = ("fa", "fb", "fc")[which]
+        frames = [("go", p, o, p, gl, gl), (fn, p, o, t.name, tl, tl)]
+        files.append(t)
+    elif variant == "self":
+        t = Src("%s/t.h" % d)
+        t.text("// t\n#ifndef T_ONCE\n#define T_ONCE\n")
+        pad(t)
+        t.text('#include "t.h"\n')
+        pad(t)
+        t.text("int fa(int k) {\n")
+        tl = t.line
+        t.text("  x_ = 10 / k;\n  return x_;\n}\n#endif\n")
+        pad(m)
+        m.text('#include "t.h"\n')
+        pad(m)
+        gl = m.line
+        m.text("int go() { return fa(0); }\n")
+        frames = [("go", p, o, p, gl, gl), ("fa", p, o, t.name, tl, tl)]
+        files.append(t)
+    else:  # back
+        a = Src("%s/a.h" % d)
+        b = Src("%s/b.h" % d)
+        a.text("// a\n#ifndef A_ONCE\n#define A_ONCE\n")
+        pad(a)
+        a.text('#include "b.h"\n')
+        pad(a)
+        a.text("int fa(int k) {\n")
+        al = a.line
+        a.text("  x_ = 10 / k;\n  return x_;\n}\n#endif\n// tail of a\n")
+        b.text("// b\n")
+        pad(b)
+        b.text('#include "a.h"\n')
+        pad(b)
+        b.text("int fb(int k) {\n")
+        bl = b.line
+        b.text("  return fa(k) + 1;\n}\n")
+        m.text("int fa(int k);\n")
+        pad(m)
+        m.text('#include "a.h"\n')
+        pad(m)
+        gl = m.line
+        m.text("int go() { return fb(0); }\n")
+        frames = [("go", p, o, p, gl, gl), ("fb", p, o, b.name, bl, bl), ("fa", p, o, a.name, al, al)]
+        files += [a, b]
+    last = frames[-1]
+    exp = "expect kind=plain file=%s lines=%d-%d program=%s object=%s trace=%s" % (
+        last[3], last[4], last[5], p, o, "|".join("%s@%s@%s@%s@%d-%d" % f for f in frames))
+    return [f.cmd() for f in files] + ["load o1 %s/m" % d, "apply o1 go", "dump o1", exp]
 
 
 class C18(Prop):
@@ -298,10 +374,11 @@ class C18(Prop):
     title = "Runtime errors are reported at the right file and line with a correct trace"
     lean_modules = ["NV.C18.Props", "NV.C18.Witness"]
     theorems = ["NV.C18.line_roundtrip_raw", "NV.C18.line_roundtrip", "NV.C18.long_statement_ok",
-                "NV.C18.file_roundtrip", "NV.C18.file_roundtrip_partial", "NV.C18.trace_order",
+                "NV.C18.file_roundtrip", "NV.C18.file_roundtrip_ids", "NV.C18.file_roundtrip_partial",
+                "NV.C18.fresh_idsOf", "NV.C18.trace_order",
                 "NV.C18.runEms_li", "NV.C18.translateAbs_at"]
     witness_theorems = ["NV.C18.file_roundtrip_Full_false", "NV.C18.line_roundtrip_Full_false",
-                        "NV.C18.reinclude_wrong", "NV.C18.wide_wrong", "NV.C18.signed_short_wrong",
+                        "NV.C18.reinclude_wrong", "NV.C18.reinclude_repaired", "NV.C18.wide_wrong", "NV.C18.signed_short_wrong",
                         "NV.C18.init_block_only_noted", "NV.C18.init_replay"]
     consts = [("aProgram", "A_PROGRAM"), ("aInitializer", "A_INITIALIZER"),
               ("frameFunction", "FRAME_FUNCTION"), ("frameFunp", "FRAME_FUNP"), ("frameCatch", "FRAME_CATCH"),
@@ -411,6 +488,9 @@ class C18(Prop):
            **g.meta)
         mk("init", case_init("b_init"), fail="init")
         mk("init-after-functions", case_init("b_init2", pad=40, funcs=3), fail="init")
+        for v in ("again", "self", "back"):
+            mk("multi-include-" + v, case_multi_include("b_mi_" + v, v), fail="reinclude")
+            mk("multi-include-pad-" + v, case_multi_include("b_mip_" + v, v, rng), fail="reinclude")
         mk("reinclude-second", case_reinclude("b_reinc"), fail="reinclude")
         mk("reinclude-first", case_reinclude("b_reinc1", first_ok=True), fail="reinclude-first")
         return B
